@@ -34,11 +34,21 @@ from .. import core
 PID = "C10"
 LEVEL = "model_checking"
 
+# appended to the last program: the user rebinds every builtin the generated code calls by bare name (the list
+# C09 reads from generated ASTs) and then uses the features whose lowering calls them (for/break -> iterator preset,
+# slices, star-unpacking, import, class with implicit wrappers), so that a conversion which has to *protect* those
+# builtins is part of every history: state it leaves behind in shared preset trees shows in the next conversion.
+_SHADOW = (
+    "".join("%s = %s\n" % (b, b) for b in ["setattr", "hasattr", "iter", "next", "slice", "tuple", "list", "globals", "locals", "__import__", "classmethod", "staticmethod"])
+    + "for q in [1, 2, 3]:\n    if q == 2:\n        break\n    q += 0\nelse:\n    q = -1\n"
+    + "u, *v = [1, 2, 3][0:2]\nimport os.path\nclass W:\n    def __init_subclass__(cls):\n        pass\n    def __class_getitem__(cls, i):\n        return i\n"
+    + "print(q, u, v, os.path.sep == os.sep, W[3])\n"
+)
 PROGRAMS = [
     "x = 1\nif x:\n    print(x)\nelse:\n    print(0)\nprint(2)\n",
     "def f(alpha, beta, gamma, delta):\n    def g():\n        return alpha + beta + gamma + delta\n    return g()\nprint(f(1, 2, 3, 4))\n",
     "i = 0\nwhile i < 5:\n    k = 0\n    while k < 3:\n        k += 1\n        if k == 2:\n            break\n        k += 0\n    i += 1\n    if i == 3:\n        break\n    i += 0\nfor j in range(3):\n    for m in range(2):\n        if m:\n            break\n        m += 0\n    if j:\n        break\n    j += 0\nimport os\nprint(i, j, k, m)\n",
-    "a, (b, c) = 1, (2, 3)\n(d, e), g = (4, 5), 6\nclass K:\n    v = a\n    __p = 7\n    def __hid(self):\n        return self.__p\n    class __In:\n        z = 1\n    def m(self):\n        return self.v, self.__hid(), self.__In.z\ntype = 0\nprint(K().m(), b, c, d, e, g, f'{a!r:>{b}}')\n",
+    "a, (b, c) = 1, (2, 3)\n(d, e), g = (4, 5), 6\nclass K:\n    v = a\n    __p = 7\n    def __hid(self):\n        return self.__p\n    class __In:\n        z = 1\n    def m(self):\n        return self.v, self.__hid(), self.__In.z\ntype = 0\nprint(K().m(), b, c, d, e, g, f'{a!r:>{b}}')\n" + _SHADOW,
 ]
 OPTIONS = ["unparser", "expr_wrapper", "if_style"]
 LEGAL = {"unparser": ["ast.unparse", "oneliner"], "expr_wrapper": ["list", "chain_call"], "if_style": ["if_expr", "short_circuit"]}
